@@ -414,6 +414,8 @@ func (g *tplGraph) coq() string {
 	return vh.CoqList(ts) + " " + refs(g.root)
 }
 
+var rlfFails, fixedFails int
+
 // ---- the correspondence pass --------------------------------------------------------------------
 
 func correspondence(r *vh.Rng, sum *vh.Summary, cw *vh.CaseWriter, n int) {
@@ -421,7 +423,19 @@ func correspondence(r *vh.Rng, sum *vh.Summary, cw *vh.CaseWriter, n int) {
 		// removeLastFilterInXPath
 		xp := genXPathForRLF(r)
 		useJSON := r.Chance(0.5)
-		trimmed, out, observable, ctorErr := observeRLF(xp, useJSON)
+		var trimmed, out string
+		var observable, ctorErr bool
+		if bad := guarded(watchdog, func() { trimmed, out, observable, ctorErr = observeRLF(xp, useJSON) }); bad != "" {
+			sum.Hist("FAIL:stream-reader-constructor")
+			if rlfFails < 3 {
+				rlfFails++
+				sum.Fail("NewXMLStreamReader / NewJSONStreamReader (removeTrailingFiltersInXPath) "+bad, map[string]interface{}{"xpath": xp, "json_reader": useJSON}, bad)
+			}
+			if strings.HasPrefix(bad, "hang") && hangs > 8 {
+				return
+			}
+			continue
+		}
 		switch {
 		case ctorErr:
 			sum.Hist("pure:rlf-xpath-rejected")
@@ -487,7 +501,19 @@ func correspondence(r *vh.Rng, sum *vh.Summary, cw *vh.CaseWriter, n int) {
 		start := pickInt(r, -3, -1, 0, 1, 1, 2, 3, 4, 5, 8, 13, 50, 1<<31, 1<<62)
 		length := pickInt(r, -2, 0, 1, 1, 2, 3, 5, 8, 50, 1<<31, 1<<62)
 		line := genFixedLine(r)
-		val, ok := observeFixed(second, start, length, line)
+		var val string
+		var ok bool
+		if bad := guarded(watchdog, func() { val, ok = observeFixed(second, start, length, line) }); bad != "" {
+			sum.Hist("FAIL:fixed-column")
+			if fixedFails < 3 {
+				fixedFails++
+				sum.Fail("fixed-length column extraction (lineToColumnValue) "+bad, map[string]interface{}{"second": second, "start_pos": start, "length": length, "line_hex": fmt.Sprintf("%x", line)}, bad)
+			}
+			if strings.HasPrefix(bad, "hang") && hangs > 8 {
+				return
+			}
+			continue
+		}
 		if !ok {
 			sum.Fail("fixed-length column extraction panicked or returned no value", map[string]interface{}{"second": second, "start_pos": start, "length": length, "line_hex": fmt.Sprintf("%x", line)}, nil)
 			continue
